@@ -238,6 +238,8 @@ public:
             const XMLCh* const  chars,
             const size_type     length)
     {
+        throwIfNotCharacters(chars, length);
+
         writeParentTagEnd();
     
         m_indentHandler.setPreserve(true);
@@ -346,6 +348,8 @@ protected:
     void
     writeDoctypeDecl(const XalanDOMChar*    name)
     {
+        throwIfNotCharacters(name, length(name));
+
         // "<!DOCTYPE "
         m_writer.write(
             m_constants.s_doctypeHeaderStartString,
@@ -692,6 +696,41 @@ protected:
         }
     }
 
+    /**
+     * A string that goes to one of the writers' bulk writes (a name, a
+     * processing instruction target, text with output escaping disabled)
+     * gets the test the positional writes apply character by character:
+     * it must be well-formed UTF-16 and contain no U+FFFE, U+FFFF or NUL.
+     */
+    void
+    throwIfNotCharacters(
+            const XalanDOMChar*     chars,
+            size_type               length)
+    {
+        for (size_type i = 0; i < length; ++i)
+        {
+            const XalanDOMChar  ch = chars[i];
+
+            if (isUTF16HighSurrogate(ch) == true)
+            {
+                if (i + 1 >= length ||
+                    isUTF16LowSurrogate(chars[i + 1]) == false)
+                {
+                    throwInvalidUTF16SurrogateException(
+                        ch,
+                        i + 1 >= length ? XalanDOMChar(0) : chars[i + 1],
+                        getMemoryManager());
+                }
+
+                ++i;
+            }
+            else
+            {
+                throwIfNotACharacter(ch);
+            }
+        }
+    }
+
     void
     writeNumericCharacterReference(XMLUInt32  theNumber)
     {
@@ -937,6 +976,8 @@ private:
     writeName(const XalanDOMChar*   theChars)
     {
         assert( theChars != 0);
+
+        throwIfNotCharacters(theChars, length(theChars));
 
         m_writer.writeNameChar(theChars, length(theChars));
     }
